@@ -227,17 +227,19 @@ class FilterDriver(explore.Driver):
                 None, f"filter.{which}: got {got.astype(int).tolist()} "
                 f"expected {exp.astype(int).tolist()} with settings "
                 f"{dict(cfg)} manual={flt.manual.astype(int).tolist()}", t))
+        got = np.array(flt.all)
+        if not cfg["enable filters"]:
+            # with filters disabled the property only speaks about the
+            # combined selection (the partial arrays may be left untouched)
+            if not got.all():
+                bad("all", got, np.ones(N, bool), {"case": "disabled"})
+            return out
         if not np.array_equal(flt.box, box):
             bad("box", flt.box, box)
         if not np.array_equal(flt.polygon, poly):
             bad("polygon", flt.polygon, poly)
         if not np.array_equal(flt.invalid, invalid):
             bad("invalid", flt.invalid, invalid)
-        got = np.array(flt.all)
-        if not cfg["enable filters"]:
-            if not got.all():
-                bad("all", got, np.ones(N, bool), {"case": "disabled"})
-            return out
         lim = cfg["limit events"]
         if lim > 0 and qual.sum() > lim:
             if got.sum() != lim or (got & ~qual).any():
